@@ -187,7 +187,8 @@ def gen_case(seed, tier="quick"):
         if cand:
             flts.append({"i": rng.choice(cand), "seam": "lib", "n": rng.choice((1, 2, 3)), "exc": "MemoryError"})
     return {"kind": "twin14", "seed": seed, "be": be, "sys": list(sys_), "gnames": gnames, "mnames": mnames, "shape": shape,
-            "cols": cols, "steps": steps, "faults": flts, "how": rng.choice(("a", "b", "c")), "record": as_record}
+            "cols": cols, "steps": steps, "faults": flts, "how": rng.choice(("a", "b", "c")), "record": as_record,
+            "akorder": rng.sample(range(len(gnames)), len(gnames)) if rng.random() < 0.5 else list(range(len(gnames)))}
 
 
 # --------------------------------------------------------------------------- construction
@@ -223,13 +224,14 @@ def _build(vector, case, names, mom):
         cls = getattr(vector, f"{'Momentum' if mom else 'Vector'}Numpy{len(gn)}D")
         return cls(rows, dtype=dt)
     n = len(cols[gn[0]])
-    recs = [{nm: cols[g][i] for nm, g in zip(names, gn)} for i in range(n)]
+    ko = case.get("akorder") or list(range(len(gn)))     # records may list their fields in any order
+    recs = [{names[q]: cols[gn[q]][i] for q in ko} for i in range(n)]
     data = [recs[:2], [], recs[2:]] if shape == ["jag"] else ([recs[0], None, recs[2]] if shape == ["opt"] else recs)
     if be == "ak":
         if how == "a" or shape in (["jag"], ["opt"]):
             return vector.Array(data)
         if how == "b":
-            return vector.zip({nm: [cols[g][i] for i in range(n)] for nm, g in zip(names, gn)})
+            return vector.zip({names[q]: [cols[gn[q]][i] for i in range(n)] for q in ko})
         return vector.Array(ak.Array(data))
     # akraw: plain ak.Array named Vector/MomentumND resolved through the (registered) global behavior
     return ak.Array(data, with_name=f"{'Momentum' if mom else 'Vector'}{len(gn)}D")
